@@ -13,7 +13,7 @@ TECHNIQUE = "exhaustive enumeration of per-unit version histories (every step se
 RULE = (
     "every version history = first version in {(0,0,0),(5,3,1)} followed by up to L-1 steps over the alphabet "
     "{repeat, +3 dem, +3 gop +1 other, +10/+3, +3/+10 +2 other, -2 dem (downward revision), +3 dem -2 gop (impossible batch, turnout still grows), "
-    "+3 other only, +10/+10} x latest recorded percent in {40, 93.5, 100} x earlier recorded percents {consistent, garbage} x count dtype {float, int}, "
+    "+3 other only, +10/+10, +10 dem -1 gop (batch margin 11/9, just above 1)} x latest recorded percent in {40, 93.5, 100} x earlier recorded percents {consistent, garbage} x count dtype {float, int}, "
     "one and two units per frame. Oracle: regular history => rows exactly for p = 0..floor(latest), est(p)*p = m_v*perc_v + b_v*(p - perc_v) with v the "
     "last observation at or below p (hence a convex combination within [-1,1]), est = first margin before the first observation (p = 0 exempt), "
     "correction = final margin - est; irregular history => all corrections missing and the error type recorded. non-trivial = the history has at least "
@@ -23,7 +23,7 @@ ASSUMPTIONS = [
     "float knife edges: an observation whose exact percent is within 1e-9 of a whole percent p may be read as 'at p' or 'just above p'; both readings are accepted",
     "p = 0 is exempt (the code defines est(0) = 0)",
 ]
-STEPS = [(0, 0, 0), (3, 0, 0), (0, 3, 1), (10, 3, 0), (3, 10, 2), (-2, 0, 0), (3, -2, 0), (0, 0, 3), (10, 10, 0)]
+STEPS = [(0, 0, 0), (3, 0, 0), (0, 3, 1), (10, 3, 0), (3, 10, 2), (-2, 0, 0), (3, -2, 0), (0, 0, 3), (10, 10, 0), (10, -1, 0)]
 FIRST = [(0, 0, 0), (5, 3, 1)]
 LATEST = [40.0, 93.5, 100.0]
 SELFCHECK_INDEX = 2
@@ -100,9 +100,14 @@ def reference(hist, latest, truncated=False):
     for p in range(0, math.floor(maxp) + 1):
         acc = set()
         # candidates for "last observation at or below p", with knife-edge tolerance
+        # tolerance only where the implementation's float quotient is not exact (an exact whole percent such as the
+        # final version's must be read as "observed at p")
+        def inexact(i):
+            return last != 0 and Fraction((T[i] / last) * float(latest)) != perc[i]
+
         strict = [i for i in range(len(perc)) if perc[i] <= p]
-        loose = [i for i in range(len(perc)) if perc[i] <= p + Fraction(1, 10**9)]
-        tight = [i for i in range(len(perc)) if perc[i] <= p - Fraction(1, 10**9)]
+        loose = [i for i in range(len(perc)) if perc[i] <= p or (inexact(i) and perc[i] <= p + Fraction(1, 10**9))]
+        tight = [i for i in range(len(perc)) if perc[i] <= p and not (inexact(i) and perc[i] > p - Fraction(1, 10**9))]
         for cand in (strict, loose, tight):
             v = cand[-1] if cand else -1
             if p == 0:
